@@ -142,9 +142,26 @@ func (g *gen) codeForm(depth int) string {
 	}
 }
 
+// defaultFormLambdas: the block of default forms as lambda values (every shape x {&optional, &key}).
+func defaultFormLambdas() []slip.Object {
+	var out []slip.Object
+	for _, d := range defaultForms {
+		for _, ll := range []string{"(x &optional (y " + d + "))", "(x &key (y " + d + ") acc)"} {
+			var v slip.Object
+			if perr := safe(func() { v = common.EvalIn(slip.NewScope(), "(lambda "+ll+" (list x y))").Value }); perr == "" {
+				if _, ok := v.(*slip.Lambda); ok {
+					out = append(out, v)
+				}
+			}
+		}
+	}
+	return out
+}
+
 // genLambda builds a lambda object from generated source text.
 func (g *gen) genLambda(doc bool) slip.Object {
-	ll := common.Pick(g.r, []string{"()", "(x)", "(x y)", "(x &optional (y 2))", "(x &rest acc)", "(x &key (y 3) acc)"})
+	ll := common.Pick(g.r, []string{"()", "(x)", "(x y)", "(x &optional (y 2))", "(x &rest acc)", "(x &key (y 3) acc)",
+		"(x &optional (y (list x 1)))", "(x &optional (y (+ x 1)) &key (acc (cons x nil)))", "(x &key (y (if x 1 '(a b))) acc)"})
 	src := "(lambda " + ll
 	if doc {
 		src += " \"doubles x\""
